@@ -187,7 +187,11 @@ def _public_worker(job):
         out = None
         for pk in pks:
             out = wire.decode_packet(dec, fmt, pk)
-        return m, out
+        # the same message once more from a second, fresh encoder (same sequence counter) through the SAME decoder
+        out2 = None
+        for pk in wire.encode_packets(R, R.encoder.NMEA2000Encoder(), fmt, m):
+            out2 = wire.decode_packet(dec, fmt, pk)
+        return m, out, out2
     try:
         paths, ex = explore(h, max_paths=64)
     except Unsupported as e:
@@ -205,12 +209,16 @@ def _public_worker(job):
             rep.violation({"kind": "public-path-lost", "fmt": fmt, "def": p.id}, "%s: %s message not returned after encode->decode (%r)" % (fmt, p.id, pa.value if pa.kind != "return" else None), w(m0))
             continue
         nret += 1
-        m, out = pa.value
-        cl0 = [z3.BoolVal(out.PGN == m.PGN and out.id == m.id and len(out.fields) == len(m.fields))]
-        for fa, fb in zip(m.fields, out.fields):
+        m, out, out2 = pa.value
+        if out2 is None:
+            rep.violation({"kind": "public-path-second-message", "fmt": fmt, "def": p.id}, "%s: %s sent a second time (by a second encoder, same sequence counter) to the same decoder is not returned" % (fmt, p.id), w(m0))
+            continue
+        cl0 = [z3.BoolVal(out.PGN == m.PGN and out.id == m.id and len(out.fields) == len(m.fields) and out2.id == m.id and len(out2.fields) == len(m.fields))]
+        for fa, fb, fc in zip(m.fields, out.fields, out2.fields):
             cl0.append(z3.BoolVal(fa.id == fb.id))
             cl0.append(eq_term(fa.value, fb.value))
             cl0.append(eq_term(fa.raw_value, fb.raw_value))
+            cl0.append(eq_term(fa.raw_value, fc.raw_value))
         st, mm = prove(z3.And(*cl0), list(pa.pc), label="public-fields/%s" % fmt)
         if st == "sat":
             rep.violation({"kind": "public-path-differs", "fmt": fmt, "def": p.id}, "%s: %s fields differ after encode->decode" % (fmt, p.id), w(mm))
@@ -328,10 +336,15 @@ def replay(r):
             out = None
             for pk in pks:
                 out = wire.decode_packet(dec, fmt, pk)
+            out2 = None
+            for pk in wire.encode_packets(N, N.encoder.NMEA2000Encoder(), fmt, m):
+                out2 = wire.decode_packet(dec, fmt, pk)
         except Exception as e:
             return True, "raised %r" % (e,)
         if out is None:
             return True, "no message after encode->decode"
+        if out2 is None or [(f.id, f.raw_value) for f in out2.fields] != [(f.id, f.raw_value) for f in m.fields]:
+            return True, "the same message from a second encoder through the same decoder: %r" % (None if out2 is None else [(f.id, f.raw_value) for f in out2.fields][:4],)
         same = out.PGN == m.PGN and out.id == m.id and [(f.id, f.value, f.raw_value) for f in out.fields] == [(f.id, f.value, f.raw_value) for f in m.fields] \
             and (out.source, out.priority, out.destination) == (r["src"], r["prio"], wire.expected_dst(fmt, p.pgn, r["dst"]))
         return not same, "got src/prio/dst %r fields %r" % ((out.source, out.priority, out.destination), [(f.id, f.value) for f in out.fields][:3])
